@@ -24,11 +24,10 @@ Lemma ed_g_enc_ok : point_encode ed_coord_len ed_sign_byte (ed_gx, ed_gy) = Ok e
 Proof. vm_compute. reflexivity. Qed.
 Lemma ed_g_dec_ok : point_coord_to_bytes ed_coord_len (ed_gx, ed_gy) = Ok ed_g_dec_bytes.
 Proof. vm_compute. reflexivity. Qed.
-(* the library's square-and-multiply x-recovery, run by the kernel (VM) on the generator's encoding:
-   point_decode(_G_ENC_BYTES) = _G.  (One evaluation, ~11 s; vm_cast_no_check avoids doing it twice.) *)
-Lemma ed_g_decode : point_decode ed_q ed_d ed_coord_len ed_clamp ed_sign_bit (x_recover ed_q ed_d ed_sqrtm1)
-                      ed_g_enc_bytes = Ok (ed_gx, ed_gy).
-Proof. vm_cast_no_check (eq_refl (@Ok (Z * Z) (ed_gx, ed_gy))). Qed.
+(* (point_decode(_G_ENC_BYTES) = _G with the library's square-and-multiply x-recovery evaluates in ~11 s under
+   vm_compute, but coqchk re-checks VM casts with its lazy machine and does not finish in 25 minutes; that fact
+   is therefore left to the correspondence run -- tag concrete-kG in harness/props/C12.py -- where the EXTRACTED
+   x_recover is run on the generator's encoding against the library.) *)
 (* the curve objects configured in Ed25519Const agree with the library's own constants *)
 Lemma edc_consistent : Z.of_N edc_n = ed_l /\ Z.of_N edc_gx = ed_gx /\ Z.of_N edc_gy = ed_gy.
 Proof. vm_compute. repeat split. Qed.
